@@ -44,7 +44,7 @@ def random_cases(ctx, count):
         else:
             y = [min(5, max(0, (xi if trend > 0 else 9 - xi) // 2 + r.randint(-2, 2))) for xi in x]
         w = [r.randint(1, 3) for _ in range(n)] if r.random() < 0.5 else []
-        out.append({"kind": "fit", "inp": {"x": x, "y": y, "w": w, "q": list(range(1, 2 * max(x) + 3)),
+        out.append({"kind": "fit", "inp": {"x": x, "y": y, "w": w, "q": list(range(1, 2 * max(x) + 2, 2)) + list(range(2 * max(x) + 2, 0, -2)),
                                           "ty": "f32" if r.random() < 0.15 else "f64"}})
     return out
 
